@@ -39,7 +39,7 @@ def puts(f: Func) -> List[Tuple[str, ast.Call]]:
 def _count_paths(cfg, start, end, counted: Set, limit: int = 4, stable: Optional[Set[str]] = None) -> Set[Tuple[int, ...]]:
     """set of sequences (as tuples of indices into `counted` order) of counted nodes seen along acyclic paths start->end.
     Inner loops are summarised by visiting each node at most once per path."""
-    counted_list = list(counted)
+    counted_list = list(counted)  # `counted` is an ordered list: indices in the result refer to it
     results: Set[Tuple[int, ...]] = set()
 
     def dfs(n, seen: frozenset, acc: Tuple[int, ...], dec=()):
@@ -88,11 +88,7 @@ def r18_1(ctx: Ctx) -> None:
     body = next(s for s in it.succ if s.kind == "body")
     sn = {q.node_for(f, c): "s" for c in s_puts}
     en = {q.node_for(f, c): "e" for c in e_puts}
-    counted = list(sn) + list(en)
-    seqs = _count_paths(cfg, body, it, set(counted))
-    labels = {i: (sn.get(n) or en.get(n)) for i, n in enumerate(list(set(counted)))}
-    # recompute with stable ordering
-    clist = list(set(counted))
+    clist = list(sn) + [n for n in en if n not in sn]
     # conditions that are re-tested unchanged inside one iteration (their names are never assigned in the function)
     assigned = {n.id for x in walk(f.node) for n in ast.walk(x) if isinstance(n, ast.Name) and isinstance(n.ctx, ast.Store)}
     stable = set()
@@ -100,7 +96,7 @@ def r18_1(ctx: Ctx) -> None:
         if n.kind == "test" and not ({x.id for x in ast.walk(n.ast) if isinstance(x, ast.Name)} & assigned) \
                 and not any(isinstance(x, ast.Call) for x in ast.walk(n.ast)):
             stable.add(" ".join(ast.unparse(n.ast).split()))
-    seqs = _count_paths(cfg, body, it, set(clist), stable=stable)
+    seqs = _count_paths(cfg, body, it, clist, stable=stable)
     # all puts are under the same "queue given" guard; a path with no events at all is the no-queue path
     bad = []
     for sq in seqs:
